@@ -66,8 +66,41 @@ def _line(j, cur):
     return cur
 
 
+_CUR_FILE = {'file': None}
+_SRC_CACHE: dict[str, str] = {}
+
+
+def _track_file(j):
+    for key in ('loc', 'range'):
+        v = j.get(key)
+        if not v:
+            continue
+        for sub in ([v] if key == 'loc' else [v.get('begin', {}), v.get('end', {})]):
+            for cand in (sub, sub.get('spellingLoc', {}), sub.get('expansionLoc', {})):
+                if 'file' in cand:
+                    _CUR_FILE['file'] = cand['file']
+
+
+def _source_text(j) -> str:
+    """Source text of a node (used only to recover member names that clang's JSON dump omits)."""
+    rng = j.get('range', {})
+    b, e = rng.get('begin', {}), rng.get('end', {})
+    b = b.get('expansionLoc', b)
+    e = e.get('expansionLoc', e)
+    f = _CUR_FILE['file']
+    if f is None or 'offset' not in b or 'offset' not in e:
+        return ''
+    if f not in _SRC_CACHE:
+        try:
+            _SRC_CACHE[f] = open(f, encoding='utf-8', errors='replace').read()
+        except OSError:
+            _SRC_CACHE[f] = ''
+    return _SRC_CACHE[f][b['offset']: e['offset'] + e.get('tokLen', 0)]
+
+
 def reduce(j: dict, cur_line: int = 0, keep_cast=False) -> N | None:
     kind = j.get('kind')
+    _track_file(j)
     if kind is None or kind in DROP_KINDS:
         return None
     line = _line(j, cur_line)
@@ -117,6 +150,11 @@ def reduce(j: dict, cur_line: int = 0, keep_cast=False) -> N | None:
             n['list'] = True
     if kind in ('UnresolvedLookupExpr', 'UnresolvedMemberExpr'):
         n['lookups'] = [l.get('name') for l in j.get('lookups', [])]
+        if not n.get('n'):
+            import re as _re
+            m = _re.search(r'([A-Za-z_][A-Za-z_0-9]*)\s*(<[^()]*>)?\s*$', _source_text(j))
+            if m:
+                n['n'] = m.group(1)
     if kind == 'CXXDependentScopeMemberExpr':
         n['n'] = j.get('member', '')
     if kind == 'LambdaExpr':
@@ -262,7 +300,7 @@ GLOBAL_HELPERS = ['TotalOrderSort', 'IsNamedTupleClassImpl', 'IsNamedTupleClass'
                   'DictKeysDifference', 'SortedDictKeys', 'DictKeys', 'ListGetItemAs', 'DictGetItemAs',
                   'TupleGetItemAs', 'TupleSetItem', 'ListSetItem', 'DictSetItem', 'NamedTupleGetFields',
                   'TupleGetSize', 'ListGetSize', 'DictGetSize', 'TupleGetItem', 'ListGetItem', 'DictGetItem',
-                  'AssertExact', 'HashCombine']
+                  'AssertExact', 'HashCombine', 'IsStructSequenceInstance', 'IsNamedTupleInstance', 'PyRepr', 'PyStr']
 
 
 def load_program(repo: Path = B.REPO, verbose=False) -> Program:
